@@ -287,9 +287,18 @@ class Ctx:
         test = given(strategy)(test)
         test = hypothesis.seed(self.seed * 7919 + seed_offset)(test)
         test = self.settings(max_examples, shrink=shrink)(test)
+        self._last_fail = None
         try:
             test()
         except UnknownViolation:
+            sig, case, detail = self._last_fail
+            self._record_unknown(sig, case, detail)
+        except hypothesis.errors.Flaky:
+            # the wall-clock budget ran out while hypothesis was shrinking: its final re-run of the minimal case was
+            # skipped by out_of_time() above and looks "flaky" to it. The violation was real (it raised at least once in
+            # this explore): report the smallest failing case seen so far instead of turning it into a harness error.
+            if self._last_fail is None or not self.out_of_time():
+                raise
             sig, case, detail = self._last_fail
             self._record_unknown(sig, case, detail)
         finally:
@@ -302,12 +311,18 @@ class Ctx:
         from hypothesis.stateful import run_state_machine_as_test
 
         self._raise_unknown = True
+        self._last_fail = None
         try:
             run_state_machine_as_test(
                 hypothesis.seed(self.seed * 7919 + 1)(machine_cls),
                 settings=self.settings(max_examples, stateful_step_count=steps),
             )
         except UnknownViolation:
+            sig, case, detail = self._last_fail
+            self._record_unknown(sig, case, detail)
+        except hypothesis.errors.Flaky:
+            if self._last_fail is None or not self.out_of_time():
+                raise
             sig, case, detail = self._last_fail
             self._record_unknown(sig, case, detail)
         finally:
